@@ -33,19 +33,18 @@ func readContent(st *event.State) content {
 
 // snapshot reads what a payload would carry if it were sent now (through its own Encode).
 func snapshot(d mesh.GossipData) (content, error) {
-	st, ok := d.(*event.State)
-	if !ok || st == nil {
-		return nil, fmt.Errorf("payload is %T", d)
+	if d == nil {
+		return nil, fmt.Errorf("nil payload")
 	}
-	enc := st.Encode()
-	if len(enc) != 1 {
-		return nil, fmt.Errorf("Encode returned %d slices", len(enc))
+	out := content{}
+	for _, b := range d.Encode() {
+		dec, err := event.DecodeState(b)
+		if err != nil {
+			return nil, err
+		}
+		out.maxWith(readContent(dec))
 	}
-	dec, err := event.DecodeState(enc[0])
-	if err != nil {
-		return nil, err
-	}
-	return readContent(dec), nil
+	return out, nil
 }
 
 func (c content) maxWith(o content) {
@@ -121,6 +120,7 @@ type Net struct {
 	Stats    map[string]int64
 	// Immediate: deliver everything as soon as it is queued (regime S0)
 	Immediate bool
+	Closed    bool // set after teardown: late callbacks are ignored
 	draining  bool
 }
 
@@ -132,6 +132,9 @@ type simGossip struct {
 
 func (g *simGossip) GossipUnicast(dst mesh.PeerName, msg []byte) error {
 	n := g.net
+	if n.Closed {
+		return nil
+	}
 	j := n.indexOf(dst)
 	if j < 0 {
 		return fmt.Errorf("unknown relay destination: %s", dst)
@@ -148,6 +151,9 @@ func (g *simGossip) GossipUnicast(dst mesh.PeerName, msg []byte) error {
 }
 
 func (g *simGossip) GossipBroadcast(update mesh.GossipData) {
+	if g.net.Closed {
+		return
+	}
 	g.net.relayBroadcast(g.idx, g.net.Nodes[g.idx].Name, update)
 	g.net.maybeDrain()
 }
